@@ -47,6 +47,8 @@ CONSTANTS
   Lifecycle = "%s"
   SecondCheck = TRUE
   Filter = TRUE
+  MaxFail = 0
+  GiveBack = FALSE
 CONSTRAINT Hwm
 INVARIANTS AtMostOnce NoStaleInvoke QueueBound
 POSTCONDITION Accepted
